@@ -28,6 +28,7 @@
    agrees with the tool box's p256 on the tool box's own key pairs. *)
 From BT Require Import Base.ListX SM.SMModel.
 Local Open Scope N_scope.
+Set Implicit Arguments.
 
 Inductive phase := PIdle | PLegReq | PLegConf | PLescReq | PLescPk | PLescConf | PLescRand | PDone.
 Inductive uconf := UNotAsked | UWaiting | UYes | UNo.
@@ -296,22 +297,23 @@ Definition accept32 (c : smcfg) (m : mon) (pdu : list N) : bool :=
     end
   end.
 
-(* the answer to an accepted step *)
+(* the answer to an accepted step (the lengths of the answers are fixed by the C++ array types of the tool
+   box and are compared by the differential runs, not here) *)
 Definition answer32 (c : smcfg) (m : mon) (pdu r : list N) : option nat :=
   match m_ph m, r with
-  | PIdle, o :: _ => if (o =? 2) && (len r =? 7) then None else Some t_shape
-  | PLegReq, o :: _ => if (o =? 3) && (len r =? 17) then None else Some t_shape
+  | PIdle, o :: _ => if o =? 2 then None else Some t_shape
+  | PLegReq, o :: _ => if o =? 3 then None else Some t_shape
   | PLegConf, o :: srand =>
-      if negb ((o =? 4) && (len r =? 17)) then Some t_shape
+      if negb (o =? 4) then Some t_shape
       else if list_eqb (k_c1 K (g_tk (m_leg m)) srand (g_p1 (m_leg m)) (g_p2 (m_leg m))) (g_sconfirm (m_leg m)) then None
       else Some t_srand_commitment
-  | PLescReq, o :: _ => if (o =? 12) && (len r =? 65) then None else Some t_shape
+  | PLescReq, o :: _ => if o =? 12 then None else Some t_shape
   | PLescConf, o :: nb =>
-      if negb ((o =? 4) && (len r =? 17)) then Some t_shape
+      if negb (o =? 4) then Some t_shape
       else if list_eqb (k_f4 K (firstn 32 (e_pkb (m_les m))) (firstn 32 (e_pka (m_les m))) nb 0) (e_cb (m_les m)) then None
       else Some t_nonce_commitment
   | PLescRand, o :: eb =>
-      if negb ((o =? 13) && (len r =? 17)) then Some t_shape
+      if negb (o =? 13) then Some t_shape
       else if list_eqb (mon_eb m) eb then None else Some t_eb_value
   | _, _ => Some t_shape
   end.
@@ -346,14 +348,14 @@ Definition check32_out (c : smcfg) (m : mon) (r : list N) : option nat :=
       else None
   | o :: body =>
       if o =? 3 then
-        if phase_eqb (m_ph m) PLescPk && (len r =? 17) then None else Some t_order_out
+        if phase_eqb (m_ph m) PLescPk then None else Some t_order_out
       else if o =? 13 then
         if negb (phase_eqb (m_ph m) PLescRand) then Some t_order_out
         else if negb (uconf_eqb user UYes) then Some t_eb_without_user_confirm
         else match e_ea (m_les m) with
              | None => Some t_eb_before_ea
              | Some ea => if negb (ea_ok m ea) then Some t_eb_bad_ea
-                          else if (len r =? 17) && list_eqb (mon_eb m) body then None else Some t_eb_value
+                          else if list_eqb (mon_eb m) body then None else Some t_eb_value
              end
       else if (o =? 6) || (o =? 7) then None      (* key distribution: C34 *)
       else Some t_shape
@@ -456,3 +458,29 @@ Definition monitor34 (c : smcfg) (db0 : DB) (tr : list (op * out)) := monitor_fr
 Definition monitor35 (c : smcfg) (db0 : DB) (tr : list (op * out)) := monitor_from mstep35 c (minit db0) O tr.
 
 End Spec.
+
+Arguments m_dead {DB}.
+Arguments m_ph {DB}.
+Arguments m_peer {DB}.
+Arguments m_passkey {DB}.
+Arguments m_leg {DB}.
+Arguments m_les {DB}.
+Arguments m_key {DB}.
+Arguments m_auth {DB}.
+Arguments m_enc {DB}.
+Arguments m_link {DB}.
+Arguments m_dist {DB}.
+Arguments m_db {DB}.
+Arguments set_m_dead {DB}.
+Arguments set_m_ph {DB}.
+Arguments set_m_peer {DB}.
+Arguments set_m_passkey {DB}.
+Arguments set_m_leg {DB}.
+Arguments set_m_les {DB}.
+Arguments set_m_key {DB}.
+Arguments set_m_auth {DB}.
+Arguments set_m_enc {DB}.
+Arguments set_m_link {DB}.
+Arguments set_m_dist {DB}.
+Arguments set_m_db {DB}.
+Arguments mkm {DB}.
